@@ -268,6 +268,10 @@ c.ensures("wait/none-when-the-sentinel-did-not-become-ready-in-time",
 c.ensures("wait/otherwise-the-exit-status-from-poll",
           "implies(is_none(old(self.returncode)) and (log_count('wait') == 0 or len(log_arg('wait', 0, 1)) > 0), "
           "log_count('call:Popen.poll') == 1 and result == log_arg('call:Popen.poll', 0, 0))")
+# the sentinel becomes ready (descriptors closed) a little before the process is waitable: once it fired, the status is collected with a *blocking* waitpid,
+# otherwise join(t) returns with the worker reported alive and without exit code although it is gone (only a zero timeout never blocks)
+c.ensures("wait/blocks-for-the-status-once-the-sentinel-fired",
+          "implies(log_count('call:Popen.poll') == 1 and (is_none(timeout) or the(timeout) != 0.0), log_arg('call:Popen.poll', 0, 2) == 0)")
 c.ensures("wait/only-a-timed-wait-polls-the-sentinel", "(log_count('wait') == 1) == (is_none(old(self.returncode)) and not is_none(timeout))")
 c.ensures("wait/waits-on-its-own-sentinel", "all_events('wait', lambda a, r: mem(a, self.sentinel) and len(a) == 1)")
 c.raises("wait/poll-assertion", "AssertionError")
